@@ -257,6 +257,10 @@ def oracle(case, obs, check=("sem", "md", "edges", "refs", "early", "emitwait", 
     """Evaluates the property statements on the observations.  Returns list of (signature, what)."""
     nodes = case["nodes"]
     problems = []
+    if "nodup" in check:
+        problems += oracle_nodup(case, obs)
+        if problems:
+            return problems
     edited = any(op["op"] in ("connect", "disconnect", "destroy", "drop") for op in case["ops"])
     orc = [oracle_graph.NodeOracle(nd, nd.get("ups", [])) for nd in nodes]
     dn = downs_of(nodes)
@@ -305,6 +309,10 @@ def oracle(case, obs, check=("sem", "md", "edges", "refs", "early", "emitwait", 
                     except oracle_graph.OracleError as oe:
                         outs = []
                         still_pending = case["mode"] == "async" and op["op"] == "emit" and (o.get("emits") or ["done"])[-1] == "pending"
+                        if case["mode"] == "async" and op["op"] != "emit" and any(nd["kind"] == "partition" for nd in nodes):
+                            # collect.flush() drops the awaitables of its emission: an exception captured by a
+                            # coroutine-style node further down has no emitter to reach
+                            still_pending = True
                         if still_pending:
                             # an exception captured by a coroutine-style node surfaces through the awaitable only
                             # when its other children are done; nothing to compare yet
@@ -430,6 +438,48 @@ def oracle(case, obs, check=("sem", "md", "edges", "refs", "early", "emitwait", 
         if err and stop_on_error:
             return problems
     return problems
+
+
+LINEAR_KINDS = ("map", "starmap", "filter", "pluck", "unique", "accumulate", "slice", "flatten", "zip", "partition",
+                "partition_unique", "union", "source", "zip_latest")
+
+
+def oracle_nodup(case, obs):
+    """No element is delivered twice by a node that hands every input on at most once (also after failures):
+    such a node never emits a metadata tag more often than it received it (zip_latest: tags that reach it only
+    through its lossless input; combine_latest / sliding_window legitimately repeat their inputs, not checked)."""
+    nodes = case["nodes"]
+    if any(op["op"] in ("connect", "disconnect", "destroy", "drop") for op in case["ops"]):
+        return []
+    arrived = {}        # (node, tag) -> number of arrivals carrying it
+    other_ups = {}      # zip_latest: tags that (also) arrive through a non-lossless input
+    emitted = {}
+    first_up = {i: (nd.get("ups") or [None])[0] for i, nd in enumerate(nodes)}
+    for op, o in zip(case["ops"], obs):
+        for e in o["log"]:
+            if e[0] == "arrive":
+                n = e[1]
+                if nodes[n]["kind"] == "zip_latest" and e[2] != first_up[n]:
+                    other_ups.setdefault(n, set()).update(e[4])
+                    continue
+                for t in e[4]:
+                    arrived[(n, t)] = arrived.get((n, t), 0) + 1
+            elif e[0] == "emit" and nodes[e[1]]["kind"] in LINEAR_KINDS:
+                n = e[1]
+                if op["op"] == "emit" and op["node"] == n:
+                    continue        # a top-level emission at this node
+                counts = {}
+                for t in e[3]:
+                    counts[t] = counts.get(t, 0) + 1
+                for t, c in counts.items():
+                    if nodes[n]["kind"] == "zip_latest" and t in other_ups.get(n, ()):
+                        continue
+                    emitted[(n, t)] = emitted.get((n, t), 0) + c
+                    if emitted[(n, t)] > arrived.get((n, t), 0):
+                        return [("duplicated:" + nodes[n]["kind"],
+                                 "node %d (%s) has emitted metadata tag %r %d time(s) but received it %d time(s): an element was delivered twice (last: %r)"
+                                 % (n, nodes[n]["kind"], t, emitted[(n, t)], arrived.get((n, t), 0), e[2]))]
+    return []
 
 
 def collectless_pending(case, obs, k):
